@@ -266,12 +266,41 @@ theorem counters_old_partial (val : Validator) (n : Nat) (v : Nat → Bool) (hv 
     cases (bisPart n v).1 <;> simp [CountsOnce]
   cases val <;> simp only [checkMotion2Old, hv, Bool.not_true, Bool.false_eq_true, if_false] <;> exact key _
 
-/-- observation that survives the F7 fix: when Dubins3D's `getPath` finds no path the call returns
-false, counts nothing and (three-argument form) leaves `lastValid` unset.  Outside the property's
-quantifier (no curve exists), recorded so that it is not mistaken for covered. -/
-theorem dubins3D_nopath_uncounted (n : Nat) (v : Nat → Bool) :
-    (checkMotion3 .dubins3D false n v) = noPath [] ∧
-    (v n = true → checkMotion2 .dubins3D false n v = noPath [n]) := by
+/-- [AF] after the F75 fix the statement needs no side condition: each call of either form of every
+validator advances exactly one counter by one, whether or not Dubins3D's `getPath` finds a path. -/
+theorem counters_exactly_one_all (val : Validator) (pathOk : Bool) (n : Nat) (v : Nat → Bool) :
+    CountsOnce (checkMotion2 val pathOk n v) ∧ CountsOnce (checkMotion3 val pathOk n v) := by
+  cases pathOk
+  · cases val
+    · exact counters_exactly_one .discrete n v
+    · exact counters_exactly_one .dubins n v
+    · exact counters_exactly_one .reedsShepp n v
+    · refine ⟨?_, ?_⟩
+      · by_cases hv : v n = true <;> simp [checkMotion2, hv, noPath, CountsOnce]
+      · simp [checkMotion3, noPath, CountsOnce]
+  · exact counters_exactly_one val n v
+
+/-- F75 on the code BEFORE that fix: when `getPath` finds no path both forms of the Dubins3D
+validator return false and advance neither counter (all states valid, any `n`). -/
+theorem counters_nopath_old_fails :
+    ¬ ∀ (val : Validator) (pathOk : Bool) (n : Nat) (v : Nat → Bool),
+        CountsOnce (checkMotion2PreF75 val pathOk n v) ∧ CountsOnce (checkMotion3PreF75 val pathOk n v) := by
+  intro h
+  have := (h .dubins3D false 3 (fun _ => true)).2
+  simp [checkMotion3PreF75, noPath, CountsOnce] at this
+
+/-- what did hold before the F75 fix: exactly one counter whenever a path exists. -/
+theorem counters_nopath_old_partial (val : Validator) (n : Nat) (v : Nat → Bool) :
+    CountsOnce (checkMotion2PreF75 val true n v) ∧ CountsOnce (checkMotion3PreF75 val true n v) := by
+  have h := counters_exactly_one val n v
+  cases val <;> simpa [checkMotion2PreF75, checkMotion3PreF75, checkMotion2, checkMotion3] using h
+
+/-- what stays open after F75 (modelled, outside the property's lastValid clause: there is no curve):
+without a path the three-argument form reports failure but leaves `lastValid` unset, and neither
+form asks about any interior point. -/
+theorem dubins3D_nopath_lastValid_unset (n : Nat) (v : Nat → Bool) :
+    (checkMotion3 .dubins3D false n v) = noPath true [] ∧
+    (v n = true → checkMotion2 .dubins3D false n v = noPath true [n]) := by
   refine ⟨by simp [checkMotion3], ?_⟩
   intro hv
   simp [checkMotion2, hv]
@@ -391,6 +420,153 @@ theorem stateList_visits_each_once (count : Nat) (v : Nat → Bool) (h : ∀ i, 
     subst this
     simp only [h2, if_false]
     exact List.Perm.refl _
+
+/-! ### getMotionStates -/
+
+/-- how many states the call is asked for: the interior points plus the two end points if wanted. -/
+def msWanted (count : Nat) (e : Bool) : Nat := (msFull (segmentsOf count) e).length
+
+/-- [AF] the returned number of states: everything asked for when the function allocates, otherwise as
+much of it as the provided vector holds; never more than the vector holds; a provided vector is not
+resized; and "everything" is `count` (+2 with end points), except that `count = UINT_MAX` wraps to
+no interior point at all. -/
+theorem getMotionStates_count (count size : Nat) (e a : Bool) :
+    (getMotionStates count e a size).returned =
+        (if a then msWanted count e else min size (msWanted count e)) ∧
+      (getMotionStates count e a size).returned ≤ (getMotionStates count e a size).newSize ∧
+      (a = false → (getMotionStates count e a size).newSize = size) ∧
+      (count + 1 < 4294967296 → msWanted count e = count + (if e then 2 else 0)) ∧
+      (count = 4294967295 → msWanted count e = (if e then 2 else 0)) := by
+  obtain ⟨h1, h2⟩ := getMotionStatesC_eq_take (segmentsOf count) e a size
+  unfold getMotionStates MSResult.returned msWanted
+  rw [h1, h2]
+  refine ⟨?_, ?_, ?_, ?_, ?_⟩
+  · cases a <;> simp [List.length_take]
+  · cases a <;> simp [List.length_take]
+  · intro ha; simp [ha]
+  · intro hc
+    have : segmentsOf count = count + 1 := by unfold segmentsOf; omega
+    rw [this, msFull_length]
+    cases e <;> by_cases h0 : count + 1 < 2 <;> simp [h0] <;> omega
+  · intro hc
+    have : segmentsOf count = 0 := by subst hc; rfl
+    rw [this, msFull_length]
+    cases e <;> simp
+
+example : (getMotionStates 3 true false 4).returned = 4 ∧ (getMotionStates 3 true true 0).returned = 5 ∧
+    (getMotionStates 4294967295 false true 7).returned = 0 := by decide
+
+/-- [AF] position `p` of `states` receives exactly the `p`-th element of `[s1]? ++ interior ++ [s2]?`
+(`getMotionStates_full` says what those are); positions from `returned` on are not written. -/
+theorem getMotionStates_points (count size : Nat) (e a : Bool) (p : Nat)
+    (hp : p < (getMotionStates count e a size).returned) :
+    (getMotionStates count e a size).written[p]? = (msFull (segmentsOf count) e)[p]? := by
+  obtain ⟨h1, _⟩ := getMotionStatesC_eq_take (segmentsOf count) e a size
+  unfold getMotionStates at hp ⊢
+  unfold MSResult.returned at hp
+  rw [h1] at hp ⊢
+  generalize (if a = true then (msFull (segmentsOf count) e).length else size) = k at hp ⊢
+  simp only [List.length_take] at hp
+  rw [List.getElem?_take]
+  have : p < k := by omega
+  simp [this]
+
+/-- [AF] the full list: without end points position `p` holds `interpolate(s1,s2,(p+1)/c)`; with end
+points position 0 is `s1`, positions `1..c-1` are `interpolate(s1,s2,p/c)` and position `c` is `s2`
+itself (a copy, not `interpolate(…,1.0)`), where `c = count + 1` is the number of segments. -/
+theorem getMotionStates_full (c : Nat) (p : Nat) :
+    (p + 1 < c → (msFull c false)[p]? = some (Slot.frac (p + 1) c)) ∧
+    (2 ≤ c → (msFull c true)[0]? = some Slot.start ∧
+      (1 ≤ p → p < c → (msFull c true)[p]? = some (Slot.frac p c)) ∧
+      (msFull c true)[c]? = some Slot.goal) ∧
+    (c < 2 → msFull c true = [Slot.start, Slot.goal] ∧ msFull c false = []) :=
+  ⟨msFull_get_noEndpoints c p, msFull_get_endpoints c p, fun h => by simp [msFull, h]⟩
+
+example : (getMotionStates 2 true true 0).written = [.start, .frac 1 3, .frac 2 3, .goal] ∧
+    (getMotionStates 5 false false 2).written = [.frac 1 6, .frac 2 6] := by decide
+
+/-- [AF] end points: when asked for, `s1` is what is written first (if anything fits) and `s2` is the last
+state exactly when everything fitted; when not asked for, neither is ever written. -/
+theorem getMotionStates_endpoints (count size : Nat) (a : Bool) :
+    (0 < (getMotionStates count true a size).returned →
+        (getMotionStates count true a size).written.head? = some Slot.start) ∧
+      ((getMotionStates count true a size).returned = msWanted count true →
+        (getMotionStates count true a size).written.getLast? = some Slot.goal) ∧
+      ((getMotionStates count true a size).returned < msWanted count true →
+        Slot.goal ∉ (getMotionStates count true a size).written) ∧
+      (Slot.start ∉ (getMotionStates count false a size).written ∧
+        Slot.goal ∉ (getMotionStates count false a size).written) := by
+  obtain ⟨h1, _⟩ := getMotionStatesC_eq_take (segmentsOf count) true a size
+  obtain ⟨h3, _⟩ := getMotionStatesC_eq_take (segmentsOf count) false a size
+  unfold getMotionStates MSResult.returned msWanted
+  rw [h1, h3]
+  generalize segmentsOf count = c
+  have hint : ∀ s ∈ msInterior c, s ≠ Slot.start ∧ s ≠ Slot.goal := by
+    intro s hs
+    simp only [msInterior, List.mem_map] at hs
+    obtain ⟨j, _, rfl⟩ := hs
+    exact ⟨by simp, by simp⟩
+  have hf : msFull c true = Slot.start :: ((if c < 2 then [] else msInterior c) ++ [Slot.goal]) := by
+    simp [msFull, msInterior]
+  have hn : msFull c false = (if c < 2 then [] else msInterior c) := by
+    simp [msFull, msInterior]
+  have hmid : ∀ s ∈ (if c < 2 then [] else msInterior c), s ≠ Slot.start ∧ s ≠ Slot.goal := by
+    intro s hs
+    split at hs
+    · simp at hs
+    · exact hint s hs
+  generalize (if c < 2 then [] else msInterior c) = mid at hf hn hmid
+  generalize (if a = true then (msFull c true).length else size) = k
+  generalize (if a = true then (msFull c false).length else size) = k'
+  rw [hf, hn]
+  refine ⟨?_, ?_, ?_, ?_, ?_⟩
+  · intro h
+    cases k with
+    | zero => simp at h
+    | succ k => simp
+  · intro h
+    have hk : (Slot.start :: (mid ++ [Slot.goal])).length ≤ k := by
+      simp only [List.length_take] at h; omega
+    rw [List.take_of_length_le hk]
+    exact List.getLast?_concat (l := Slot.start :: mid)
+  · intro h hg
+    have hk : k < (Slot.start :: (mid ++ [Slot.goal])).length := by
+      simp only [List.length_take] at h; omega
+    cases k with
+    | zero => simp at hg
+    | succ k =>
+      simp only [List.take_succ_cons, List.mem_cons] at hg
+      rcases hg with hg | hg
+      · cases hg
+      · have hk' : k ≤ mid.length := by simp at hk; omega
+        rw [List.take_append_of_le_length hk'] at hg
+        exact (hmid _ (List.mem_of_mem_take hg)).2 rfl
+  · intro hs
+    exact (hmid _ (List.mem_of_mem_take hs)).1 rfl
+  · intro hs
+    exact (hmid _ (List.mem_of_mem_take hs)).2 rfl
+
+/-- [AF] the recipe of `PathGeometric::interpolate()` — `getMotionStates(s1, s2, block, n - 1, false,
+true)` with `n = validSegmentCount(s1,s2)` and 32-bit unsigned `n - 1` — yields exactly the interior
+subdivision points `j/n`, `j = 1..n-1`, that `checkMotion` validates (none for `n ≤ 1`, thanks to the
+`UINT_MAX + 1 = 0` wrap at `n = 0`). -/
+theorem getMotionStates_matches_subdivision (n size : Nat) (hn : n < 4294967296) :
+    (getMotionStates ((n + 4294967295) % 4294967296) false true size).written =
+      (List.range' 1 (n - 1)).map (fun j => Slot.frac j n) := by
+  obtain ⟨h1, _⟩ := getMotionStatesC_eq_take (segmentsOf ((n + 4294967295) % 4294967296)) false true size
+  unfold getMotionStates
+  rw [h1]
+  have hc : segmentsOf ((n + 4294967295) % 4294967296) = n := by unfold segmentsOf; omega
+  rw [hc]
+  simp only [if_true, List.take_length]
+  unfold msFull
+  by_cases h2 : n < 2
+  · have : n - 1 = 0 := by omega
+    simp [h2, this]
+  · simp [h2]
+
+example : (getMotionStates 4294967295 false true 0).written = [] ∧
+    (getMotionStates 3 false true 0).written = [.frac 1 4, .frac 2 4, .frac 3 4] := by decide
 
 /-! ### segment count -/
 
